@@ -80,7 +80,7 @@ def gen_exons(rng, n, strand, k, lo=0, hi=None):
     if len(parts) > 1 and rng.random() < 0.3:
         # TOUCHING exons (end of one = start of the next), often several in a row: every gap is closed with
         # probability 0.6 (the merge loops of offset_location / extend_location / build_location_from_others
-        # compare exactly these coordinates; finding offset_merge_drops_part needs two touching pairs in a row)
+        # compare exactly these coordinates; the repaired finding offset_merge_drops_part needed two touching pairs in a row)
         closed = [parts[0]]
         for s, e, st in parts[1:]:
             closed.append((closed[-1][1], e, st) if rng.random() < 0.6 else (s, e, st))
@@ -658,24 +658,21 @@ CLAUSES = {
 
 # recorded finding classes: (function, class number computed in Gallina by fn 208) -> (class name, clause it violates)
 # (the class extend_lower_lost, F09b, was repaired: nothing is suppressed for it, its witnesses are in CORPUS)
-# offset_location (Gallina fn 207, bit mask): 1 offset_merge_drops_part (clause 4, the length changes), 2
-# offset_reverse_wrap_order (clause 7, bases right, transcription order wrong), 3 both (the lost part is seen first)
-FINDING_CLASSES = {(8, 1): ("extend_near_full", 3),
-                   (7, 1): ("offset_merge_drops_part", 4), (7, 3): ("offset_merge_drops_part", 4),
-                   (7, 2): ("offset_reverse_wrap_order", 7)}
-CLASS_FN = {8: 208, 7: 207}
+# (the classes C04-K2 offset_merge_drops_part and C04-K3 offset_reverse_wrap_order of offset_location, formerly Gallina
+# fn 207, were repaired: nothing is classified or suppressed for offset_location, the witnesses are in CORPUS)
+FINDING_CLASSES = {(8, 1): ("extend_near_full", 3)}
+CLASS_FN = {8: 208}
 WITNESSES = {  # class name -> [(fn, args)] replayed on the implementation every run
     "extend_near_full": [(8, ([(3, 4, NONE), (0, 3, NONE)], 2, 4, True)),
                          (8, ([(30, 100, 1), (0, 5, 1)], 31, 100, True))],
-    "offset_merge_drops_part": [(7, ([(15, 20, 1), (0, 5, 1), (5, 9, 1)], 5, 20))],
-    "offset_reverse_wrap_order": [(7, ([(13, 18, -1)], 5, 20))],
 }
 
 # regression corpus, run first on every run: (fn, args, record length).  Witnesses of the repaired findings
 # F09b extend_lower_lost (the lower extension was dropped when the upper one had been merged: a base within the
 # distance was missing; with and without exons left in the middle, both strands, the two extensions touching /
-# not touching) and F53 collection_lt_not_asymmetric = C10-F46 whole_record_vs_origin_spanning_order (whole
-# record vs origin-spanning collection, both ways; also the candidate clusters of the C10 witness).
+# not touching), F53 collection_lt_not_asymmetric = C10-F46 whole_record_vs_origin_spanning_order (whole
+# record vs origin-spanning collection, both ways; also the candidate clusters of the C10 witness), and the two
+# repaired findings of offset_location (C04-K2, C04-K3; see below).
 CORPUS = [
     (8, ([(0, 1, NONE), (3, 4, NONE)], 2, 4, True), 4),
     (8, ([(3, 4, -1), (0, 1, -1)], 2, 4, True), 4),
@@ -691,6 +688,22 @@ CORPUS = [
     (13, ([(0, 300, 1)], [(249, 300, 1), (0, 109, 1)]), 300),
     (13, ([(249, 300, 1), (0, 109, 1)], [(0, 300, 1)]), 300),
     (13, ([(0, 10, -1)], [(0, 10, 1)]), 10),
+    # C04-K2 offset_merge_drops_part (repaired): three or more touching parts in a row in the wrapping path lost
+    # the first part of the run (join{[15:20),[0:5),[5:9)} +5 on 20 gave [5:14)); both strands, longer runs
+    (7, ([(15, 20, 1), (0, 5, 1), (5, 9, 1)], 5, 20), 20),
+    (7, ([(0, 1, 1), (1, 2, 1), (2, 3, 1)], -4, 4), 4),
+    (7, ([(10, 12, 1), (12, 15, 1), (15, 19, 1), (19, 20, 1), (0, 2, 1)], 3, 20), 20),
+    (7, ([(5, 9, -1), (0, 5, -1), (15, 20, -1)], 5, 20), 20),
+    (7, ([(2, 3, -1), (1, 2, -1), (0, 1, -1)], -4, 4), 4),
+    # C04-K3 offset_reverse_wrap_order (repaired): a reverse-strand exon split at the wrap point came out in
+    # forward order ([13:18)(-) +5 on 20 gave join{[18:20),[0:3)}); touching reverse-strand parts listed upwards
+    # were merged; a reverse-strand origin-crossing location shifted off the origin was left in two parts
+    (7, ([(13, 18, -1)], 5, 20), 20),
+    (7, ([(0, 2, -1)], -1, 3), 3),
+    (7, ([(0, 3, -1), (18, 20, -1)], 5, 20), 20),
+    (7, ([(0, 3, -1), (15, 20, -1)], -2, 20), 20),
+    (7, ([(3, 5, -1), (5, 8, -1)], 14, 20), 20),
+    (7, ([(12, 18, -1), (6, 9, -1)], 5, 20), 20),
 ]
 
 
